@@ -11,29 +11,66 @@ Local Arguments N.leb : simpl never.
 Local Arguments N.ltb : simpl never.
 Local Arguments N.eqb : simpl never.
 
+(** every notification in [out] was made by a leaf of the stack through the FilterIds of its own chain, on a registry
+    [stc] whose stored filter maps agree with the notifications made ([past']); [stc] has the span stack [sk] and,
+    unless the notification is an [on_close] (made in the middle of the close cascade), the span pool [sp] *)
+Definition toldg (c : coll) (past' : list (N * N)) (sk : list (N * bool)) (sp : list (N * sdata)) (out : list obs) : Prop :=
+  forall o n, In o out -> leaf_of o = Some n ->
+    exists stc v ch w next, In (n, v, ch) (coll_recs c) /\ o = record n stc (mask_of ch) w /\ st_stack stc = sk /\
+      (st_spans stc = sp \/ exists id, w = WClose id) /\ spans_ok c (st_spans stc) next past'.
+Definition told (c : coll) (past : list (N * N)) (st' : state) (out : list obs) : Prop :=
+  toldg c (past ++ news_of out) (st_stack st') (st_spans st') out.
+
 Definition step_ok (c : coll) (mx : N) (pool : list meta) (o : op) : Prop :=
   forall st past st' out, WF c -> HintSound c mx pool -> Inv c pool st past ->
     step c mx pool st o = (st', out, false) ->
-    step_spec c pool st past o out st' /\ Inv c pool st' (past ++ news_of out) /\ sees_only_own past out.
+    step_spec c pool st past o out st' /\ Inv c pool st' (past ++ news_of out) /\ told c past st' out.
 
-Lemma sees_quiet : forall past out, quiet out -> sees_only_own past out.
+Lemma toldg_quiet : forall c past' sk sp out, quiet out -> toldg c past' sk sp out.
+Proof. intros c past' sk sp out Q o n Hin Hl. destruct o; try discriminate. exfalso. eapply Q; eauto. Qed.
+Lemma toldg_app : forall c past' sk sp a b, toldg c past' sk sp a -> toldg c past' sk sp b -> toldg c past' sk sp (a ++ b).
+Proof. intros c past' sk sp a b Ha Hb o n Hin. apply in_app_or in Hin. destruct Hin; [eapply Ha | eapply Hb]; eauto. Qed.
+Lemma sees_quiet : forall c past st' out, quiet out -> told c past st' out.
+Proof. intros. apply toldg_quiet. auto. Qed.
+Lemma sees_deq : forall c past st' out out', delivs out = delivs out' -> told c past st' out' -> told c past st' out.
 Proof.
-  intros past out Q o n id Hin Hl _. destruct o; try discriminate. exfalso. eapply Q; eauto.
-Qed.
-Lemma sees_deq : forall past out out', delivs out = delivs out' -> sees_only_own past out' -> sees_only_own past out.
-Proof.
-  intros past out out' E H o n id Hin Hl Hm. rewrite (news_of_deq _ _ E).
-  apply (H o n id); auto. apply (proj2 (in_delivs_leaf out' _ _ Hl)). rewrite <- E. apply (proj1 (in_delivs_leaf out _ _ Hl)). exact Hin.
+  intros c past st' out out' E H o n Hin Hl. unfold told in *. rewrite (news_of_deq _ _ E).
+  apply (H o n); auto. apply (proj2 (in_delivs_leaf out' _ _ Hl)). rewrite <- E. apply (proj1 (in_delivs_leaf out _ _ Hl)). exact Hin.
 Qed.
 
 (** the notifications of one delivery pass over the pool [stc] *)
-Lemma sees_pass : forall c (P : list (N * filt) -> Prop) stc w o4 next past, WF c ->
+Lemma toldg_pass : forall c (P : list (N * filt) -> Prop) stc w o4 next past', WF c ->
   (forall o, In o o4 <-> exists n v ch, In (n, v, ch) (coll_recs c) /\ P ch /\ o = record n stc (mask_of ch) w) ->
-  spans_ok c (st_spans stc) next (past ++ news_of o4) -> sees_only_own past o4.
+  spans_ok c (st_spans stc) next past' -> toldg c past' (st_stack stc) (st_spans stc) o4.
 Proof.
-  intros c P stc w o4 next past Hwf Hc Hok o n id Hin Hl Hm.
+  intros c P stc w o4 next past' Hwf Hc Hok o n Hin Hl.
   apply Hc in Hin. destruct Hin as (n' & v & ch & Hr & _ & E). subst o. simpl in Hl. inversion Hl; subst n'.
-  eapply record_sees; eauto.
+  exists stc, v, ch, w, next. split; [exact Hr|]. split; [reflexivity|]. split; [reflexivity|]. split; [left; reflexivity | exact Hok].
+Qed.
+Lemma sees_pass : forall c (P : list (N * filt) -> Prop) stc w o4 next past st', WF c ->
+  (forall o, In o o4 <-> exists n v ch, In (n, v, ch) (coll_recs c) /\ P ch /\ o = record n stc (mask_of ch) w) ->
+  st_stack stc = st_stack st' -> st_spans stc = st_spans st' ->
+  spans_ok c (st_spans stc) next (past ++ news_of o4) -> told c past st' o4.
+Proof.
+  intros c P stc w o4 next past st' Hwf Hc Hk Hs Hok. unfold told. rewrite <- Hk, <- Hs. eapply toldg_pass; eauto.
+Qed.
+
+(** what [told] gives: soundness and exactness of everything the leaf reads *)
+Lemma toldg_sees : forall c past' sk sp out, toldg c past' sk sp out ->
+  forall o n id, In o out -> leaf_of o = Some n -> In id (mentions o) -> In (n, id) past'.
+Proof.
+  intros c past' sk sp out H o n id Hin Hl Hm. destruct (H o n Hin Hl) as (stc & v & ch & w & next & Hr & E & _ & _ & Hok).
+  subst o. eapply record_sees; eauto.
+Qed.
+Lemma told_sees : forall c past st' out, told c past st' out -> sees_only_own past out.
+Proof. intros c past st' out H o n id Hin Hl Hm. eapply toldg_sees; eauto. Qed.
+Lemma told_exact : forall c past st' out, told c past st' out -> sees_exactly past st' out.
+Proof.
+  intros c past st' out H o n Hin Hl. destruct (H o n Hin Hl) as (stc & v & ch & w & next & Hr & E & Hk & Hs & Hok).
+  exists stc, w. split; auto. split; auto. subst o. apply record_by_eq.
+  intros id. unfold alive_b. destruct (sp_get stc id) as [d|] eqn:Eg.
+  - simpl. apply eq_iff_eq_true. rewrite memb_spec. eapply alive_visible_past; eauto. unfold alive. rewrite Eg. discriminate.
+  - unfold visible. rewrite Eg. reflexivity.
 Qed.
 
 Lemma Inv_app_nil : forall c pool st past, Inv c pool st past -> Inv c pool st (past ++ []).
@@ -171,7 +208,7 @@ Lemma span_tail : forall c pool st2 past m b st3 id b4 o4, WF c ->
   reg_new_span st2 m = (st3, id) -> c_deliver c (WNew id) st3 (st_bits st3) = (b4, o4) ->
   id = st_next st2 /\ only (WNew id) o4 /\
   (forall r, In r (coll_recs c) -> (delivered (fst (fst r)) (WNew id) o4 <-> chain_clear b (snd r))) /\
-  Inv c pool (push_handle (with_bits st3 b4) (Some id)) (past ++ news_of o4) /\ sees_only_own past o4.
+  Inv c pool (push_handle (with_bits st3 b4) (Some id)) (past ++ news_of o4) /\ told c past (push_handle (with_bits st3 b4) (Some id)) o4.
 Proof.
   intros c pool st2 past m b st3 id b4 o4 Hwf Hp Hc Hs Hpast Hb Hsup Hshaped Hn Hd.
   destruct (reg_new_span_spec _ _ _ _ Hn) as (Eid & B3 & P3 & C3 & N3 & s' & d & S3 & Fd & Hsub).
@@ -285,7 +322,7 @@ Proof.
   destruct HI as [Ib Ip Ic Is Ipast].
   unfold step in H. set (m := meta_of pool cs) in *.
   assert (Fin : forall st0 o0, quiet o0 -> Inv c pool st0 past ->
-            step_spec c pool st past (OProbe cs) o0 st0 /\ Inv c pool st0 (past ++ news_of o0) /\ sees_only_own past o0).
+            step_spec c pool st past (OProbe cs) o0 st0 /\ Inv c pool st0 (past ++ news_of o0) /\ told c past st0 o0).
   { intros st0 o0 Q I0. rewrite (news_of_none _ (fun n id => quiet_delivered _ Q n (WNew id))), app_nil_r.
     split; [|split]; auto. - simpl. apply quiet_delivered. auto. - apply sees_quiet. auto. }
   destruct (m_level m <=? mx) eqn:Elv; simpl in H.
